@@ -255,6 +255,34 @@ pub fn main(tier: Tier, replay: Option<String>) -> i32 {
     let bounds = tier.pick(TreeBounds { full_len: 4, ext_len: 6, max_special: 1 }, TreeBounds { full_len: 5, ext_len: 8, max_special: 2 });
     let b = bounds.to_json();
     jobs.push(job(TextTree { world: w, label: "user".into(), alpha: c01::alphabet_user(), bounds, oracle: c09_oracle }, Strategy::Dfs, Some(tier.pick(40, 1500)), b));
+    // words declaring 63, 64, 66 and 127 units (the byte size of an array of 64 word ids no longer
+    // fits eight bits; 127 is the maximum of the format)
+    {
+        let mut spec = spec_min("W-many-units");
+        let unit = spec.system.len();
+        spec.system.push(Row::new("q", 1, 1, 3000, P_NOUN));
+        let mut texts = Vec::new();
+        for n in [63usize, 64, 66, 127] {
+            let units = vec![unit.to_string(); n].join("/");
+            spec.system.push(Row::new(&"q".repeat(n), 1, 1, -30000, P_NOUN).splits("C", &units, &units));
+            texts.push("q".repeat(n));
+            texts.push(format!("東{}京", "q".repeat(n)));
+        }
+        let w = Arc::new(World::build(spec).expect("W-many-units"));
+        let tt = Arc::new(TextTree { world: w, label: "many-units".into(), alpha: vec![], bounds: TreeBounds::full(0), oracle: c09_oracle });
+        let n = texts.len();
+        jobs.push(job(
+            CaseSpace {
+                label: "W-many-units/words-of-63-to-127-units".into(),
+                cases: texts,
+                check_fn: Box::new(move |t: &String| c09_oracle(&tt, t)),
+                describe_fn: Box::new(|t: &String| serde_json::json!({"text_length": t.chars().count(), "text": if t.chars().count() > 20 { format!("{}...", t.chars().take(20).collect::<String>()) } else { t.clone() }})),
+            },
+            Strategy::Bfs,
+            Some(120),
+            serde_json::json!({"texts": n, "unit_counts": [63, 64, 66, 127]}),
+        ));
+    }
     let _: Option<Value> = None;
     drive(rep, jobs, replay)
 }
